@@ -72,6 +72,7 @@ MUTANTS = {
         ('getxattr-count-as-value', S, "            Ok(GetxattrReply::Count(count)) => {\n                let out = GetxattrOut {\n                    size: count,", "            Ok(GetxattrReply::Count(count)) => {\n                let out = GetxattrOut {\n                    size: count + 1,"),
     ],
     'C04': [
+        ('fuse-reader-over-half-the-buffer', FD, "            VolatileSlice::with_bitmap(buf.mem.as_mut_ptr(), buf.mem.len(), S::default(), None)", "            VolatileSlice::with_bitmap(buf.mem.as_mut_ptr(), buf.mem.len() / 2, S::default(), None)"),
         ('writer-enum-bytes-written-is-available', T, "            Writer::FuseDev(w) => w.bytes_written(),", "            Writer::FuseDev(w) => w.available_bytes(),"),
         ('writer-enum-write-from-at-offset-dropped', T, "            Writer::VirtioFs(w) => w.write_from_at(src, count, off),", "            Writer::VirtioFs(w) => w.write_from_at(src, count, 0),"),
         ('writer-enum-commit-drops-other', T, "            Writer::FuseDev(w) => w.commit(other),", "            Writer::FuseDev(w) => w.commit(None),"),
